@@ -1,6 +1,6 @@
 import PexpectModel.Session
 import PexpectModel.Drv.Common
-/-! driver: `SS <b|u8|l1> <linesep> <eofByte> <intrByte> <op>…` -/
+/-! driver: `SS <b|u8|l1> <linesep> <eofByte> <intrByte> <op>…`  (ops of the expect()-side API and `X=` chunks copied by interact()) -/
 namespace Drv.SessionD
 open Sess Cd Drv
 
@@ -10,7 +10,7 @@ def mapEnc (f : Nat → List Byte) : IncEncoder Unit where
   law := by intro s a b; simp
   nil := by intro s; rfl
 
-def parseOp (s : String) : Option Op :=
+def parseOp1 (s : String) : Option Op :=
   match s.splitOn "=" with
   | ["R", h] => some (.read (decList h))
   | ["S", h] => some (.send (decList h))
@@ -20,6 +20,12 @@ def parseOp (s : String) : Option Op :=
   | ["E"] => some .sendeof
   | ["I"] => some .sendintr
   | _ => none
+
+/-- `X=<bytes>`: one chunk copied by interact() -/
+def parseOp (s : String) : Option Op2 :=
+  match s.splitOn "=" with
+  | ["X", h] => some (.iread (decList h))
+  | _ => (parseOp1 s).map .op
 
 def showEv : LogEv → String
   | .write .read s => s!"w:r:{encList s}"
@@ -36,8 +42,8 @@ def handle (toks : List String) : String :=
     match e.toNat?, i.toNat?, ops.mapM parseOp with
     | some e, some i, some ops =>
       let cfg : Cfg := ⟨decList ls, e, i⟩
-      if mode == "u8" then showSt (run utf8 (mapEnc utf8Encode) cfg (Sess.init utf8 (mapEnc utf8Encode)) ops)
-      else showSt (run latin1 (mapEnc (fun c => [c])) cfg (Sess.init latin1 (mapEnc (fun c => [c]))) ops)
+      if mode == "u8" then showSt (run2 utf8 (mapEnc utf8Encode) cfg (Sess.init utf8 (mapEnc utf8Encode)) ops)
+      else showSt (run2 latin1 (mapEnc (fun c => [c])) cfg (Sess.init latin1 (mapEnc (fun c => [c]))) ops)
     | _, _, _ => "bad-op"
   | _ => "bad-op"
 
